@@ -383,6 +383,16 @@ func c16(c *wk.Ctx) {
 		}
 		idx++
 	}
+	// every envelope item while a request is pending, naming that request where the item names one
+	for i := range cat {
+		if cat[i].raw == nil {
+			if c.Mine(idx) {
+				c.Begin(idx, "pending "+cat[i].Name)
+				c16case(c, idx, c.Rand(idx), []c16item{cat[i]}, 3*i+2)
+			}
+			idx++
+		}
+	}
 	// a server that keeps closing: eight orderly closes in a row, each after the client has reconnected
 	for k := 0; k < c.Pick(1, 4); k++ {
 		if c.Mine(idx) {
@@ -419,9 +429,14 @@ func c16(c *wk.Ctx) {
 
 func c16case(c *wk.Ctx, idx int, r *rand.Rand, seq []c16item, variant int) {
 	var holdNext int32
+	var heldMu sync.Mutex
+	var held pendingReq
 	e, err := newRPCEnv(c, idx, r, envOpts{NoWarnings: variant%5 == 4, Handler: func(e *rpcEnv, p pendingReq, in *mtp.Inner) bool {
 		if atomic.CompareAndSwapInt32(&holdNext, 1, 0) {
-			return true // swallowed: this request is in flight when the connection goes away
+			heldMu.Lock()
+			held = p
+			heldMu.Unlock()
+			return true // swallowed: this request is in flight when the connection goes away / while the items arrive
 		}
 		e.sendGroup(p.conn, [][]byte{e.resultBody(p, wrapOpts{})}, []uint64{p.uid}, false)
 		e.mu.Lock()
@@ -487,6 +502,30 @@ func c16case(c *wk.Ctx, idx int, r *rand.Rand, seq []c16item, variant int) {
 	}
 	if !probe("before") {
 		return
+	}
+	// one variant in three: a request is PENDING (the server has it and withholds the answer) while the items arrive,
+	// and the items that name a request name that one — service traffic about a message the client still waits for
+	// takes other branches than traffic about answered or unknown ids. What becomes of the pending call is not
+	// judged; the probe after the sequence is
+	pendingMode := variant%3 == 2
+	for _, it := range seq {
+		if it.raw != nil {
+			pendingMode = false
+		}
+	}
+	if pendingMode {
+		atomic.StoreInt32(&holdNext, 1)
+		uid := uidFor(r, "object", used)
+		go func() { wk.Guard(func() { e.doCall(8, uid, "object", false) }) }()
+		for w := 0; w < 500 && atomic.LoadInt32(&holdNext) == 1; w++ {
+			time.Sleep(10 * time.Millisecond)
+		}
+		if atomic.LoadInt32(&holdNext) == 1 {
+			pendingMode = false
+			atomic.StoreInt32(&holdNext, 0)
+		} else {
+			c.Count("variant.items_name_a_pending_request", 1)
+		}
 	}
 	for si, it := range seq {
 		conns := e.srv.Conns()
@@ -554,6 +593,11 @@ func c16case(c *wk.Ctx, idx int, r *rand.Rand, seq []c16item, variant int) {
 			}
 			continue
 		}
+		if pendingMode {
+			heldMu.Lock()
+			last.msgID = held.msgID
+			heldMu.Unlock()
+		}
 		body := it.build(r, e, last)
 		// any item may also travel inside a container next to an update, or gzip-packed
 		switch {
@@ -579,7 +623,7 @@ func c16case(c *wk.Ctx, idx int, r *rand.Rand, seq []c16item, variant int) {
 	e.w.mu.Lock()
 	c.Count("warnings.surfaced", int64(len(e.w.warns)))
 	e.w.mu.Unlock()
-	c.Distinct("seq", names, variant%2)
+	c.Distinct("seq", names, variant%2, pendingMode)
 	if idx%9 == 0 {
 		c.Sample(map[string]interface{}{"sequence": names, "custom_handler": variant%2 == 1})
 	}
